@@ -213,6 +213,9 @@ PROPS["C25"] = {
     "kani": [
         H(SPL, "rows_c::c25_kx_compare_key_is_key_order", "streaming_k_way_merge::compare_rows (body of the per-key loop)", "for one sort key, every direction x NULL placement x cell state: a non-Equal result is the key's run order, Equal exactly on ties (loop-free, full domain)", lane="KX"),
         H(SPL, "rows_c::c25_kx_compare_rows_is_run_order", "streaming_k_way_merge::compare_rows (closure body)", "lexicographic over the keys with each key's direction and NULL placement = the order sort_batch gave the runs (make_comparator by Arrow's contract)", lane="B", bound="<= 2 sort keys"),
+        H(SPL, "rows_c::c25_kx_compare_rows_is_run_order_k3", "streaming_k_way_merge::compare_rows (closure body)", "same, up to three sort keys", lane="B", bound="<= 3 sort keys", tier="thorough"),
+        H(SPL, "fetch_c::c25_kx_spilled_result_honours_fetch_3batches", "ExternalSortExec::execute (spilled branch)", "same, merged rows in up to three batches (every pair of split points)", lane="B", bound="<= 3 runs, <= 3 batches", tier="thorough"),
+        H(SPL, "merge_c::c25_kx_merge_step_keeps_pending_rows_b3", "streaming_k_way_merge (loop step after the minimum is chosen)", "same inductive step, up to three queued rows", lane="B", bound="2 runs, <= 3 pending rows", tier="thorough"),
         H(SPL, "fetch_c::c25_kx_spilled_result_honours_fetch", "ExternalSortExec::execute (spilled branch)", "output rows == rows [0, min(fetch,total)) of the merged order, contiguous and in order; slice preconditions met; no overflow", lane="B", bound="<= 3 runs, merged rows in <= 2 batches (every split point, every row count)"),
         H(SPL, "merge_c::c25_kx_merge_step_keeps_pending_rows_b2", "streaming_k_way_merge (loop step after the minimum is chosen)", "inductive step from an arbitrary state: materialized rows ++ pending rows (read through the CURRENT buffers) == old pending rows ++ [chosen row]; every pending row indexes a live buffer below its cursor; the step never fails", lane="B", bound="2 runs, <= 2 pending rows (every buffer size, cursor, flush threshold, reader state)"),
     ],
@@ -239,6 +242,10 @@ _C21_SLOW = ("merge_min", "merge_max", "update_i64_min", "update_i64_max", "upda
              "update_scalar_f64_min", "update_scalar_f64_max", "update_scalar_i64_min", "update_scalar_i64_max", "c21_m_finalize_avg")
 
 
+_C21_REAL_TYPE_KEPT = ("c21_m_update_i64_min", "c21_m_update_i64_max", "c21_m_update_f64_min", "c21_m_update_f64_max",
+                       "c21_m_merge_min", "c21_m_merge_max", "c21_m_update_scalar_i64_min", "c21_m_update_scalar_i64_max")
+
+
 def _c21_harnesses():
     src = open(os.path.join(os.path.dirname(os.path.dirname(os.path.abspath(__file__))), "kani", "morsel_agg.rs")).read()
     names = []
@@ -250,6 +257,13 @@ def _c21_harnesses():
     for n in names:
         if n == "c21_m_finalize_avg":
             continue  # bit-equality of two f64 dividers: no result in 30 min (measured); the NULL rule is c21_m_finalize_avg_null_rule
+        if n in _C21_REAL_TYPE_KEPT:
+            pass
+        elif any(t in n for t in _C21_SLOW) and n != "c21_m_finalize_avg_null_rule":
+            # MIN/MAX on the real ScalarValue type: 15-22 GB and 4-14 min of CBMC EACH (measured; eight in parallel were
+            # OOM-killed). The thorough tier keeps the eight base cases below, two at a time; the `_empty*` starts and the
+            # f64 ScalarValue slow path are decided on the carrier instance (c21_c_*), which is the same impl text.
+            continue
         slow = any(t in n for t in _C21_SLOW) and n != "c21_m_finalize_avg_null_rule"
         if "_new_" in n:
             fn, c = "AccumulatorState::new + finalize", "the state of an empty group finalizes to COUNT = 0 / NULL for SUM, AVG, MIN, MAX"
@@ -285,7 +299,8 @@ PROPS["C21"] = {
                    "NULL input changes nothing, a non-NULL row adds exactly itself, merge adds the abstractions (empty = identity, seen flags OR-ed), finalize yields COUNT=cnt and NULL for "
                    "SUM/AVG/MIN/MAX exactly when no non-NULL input was seen. By induction every batch split and merge order gives the SQL value (pen and paper, two lines).",
     "kani": _c21_harnesses(),
-    "harness_timeout": {"quick": "6m", "thorough": "20m"},
+    "harness_timeout": {"quick": "6m", "thorough": "25m"},
+    "jobs": {"thorough": 2},   # the real-type MIN/MAX obligations need 15-22 GB each
     "trusted_base": [
         "stub: derived ScalarValue::clone replaced by an identical clone on the scalar variants used (Null/Boolean/Int32/Int64/Float64/Date32); any other variant fails the harness",
         "harness floats are bounded in magnitude (<= 1e300) so that sums stay finite: floating overflow is engine-defined and outside the property",
